@@ -75,96 +75,157 @@ def outputValidate (o : GenOutput) : GenOutput :=
 def construct (o : GenOutput) : GenOutput :=
   outputValidate { o with format := formatValidate o.format }
 
-def s (x : String) : Str := x.toList
+/-- the option destinations of `@model_options(GeneratorOutput)` in declaration order -/
+inductive Dest where
+  | package
+  | fmtValue
+  | fmtRepr
+  | fmtEq
+  | fmtOrder
+  | fmtUnsafeHash
+  | fmtFrozen
+  | fmtSlots
+  | structureStyle
+  | docstringStyle
+  | relativeImports
+  | compoundFields
+  | wrapperFields
+  | maxLineLength
+  | genericCollections
+  | unnestClasses
+  | ignorePatterns
+  | includeHeader
+deriving Repr, DecidableEq
 
-/-- `objects.update`'s `attrsetter(obj, key, value)` for the dotted keys that
-`cli.generate` produces (`dest.replace("__", ".")`); the key is given in its
-`__` form. `none` = `AttributeError` / a value of the wrong kind. -/
-def setField (o : GenOutput) (dest : Str) (v : OptVal) : Option GenOutput :=
-  match v with
-  | .str x =>
-    if dest = s "package" then some { o with package := x }
-    else if dest = s "format__value" then some { o with format := { o.format with value := x } }
-    else if dest = s "structure_style" then some { o with structureStyle := x }
-    else if dest = s "docstring_style" then some { o with docstringStyle := x }
-    else none
-  | .int x =>
-    if dest = s "max_line_length" then some { o with maxLineLength := x } else none
-  | .bool x =>
-    if dest = s "format__repr" then some { o with format := { o.format with repr := x } }
-    else if dest = s "format__eq" then some { o with format := { o.format with eq := x } }
-    else if dest = s "format__order" then some { o with format := { o.format with order := x } }
-    else if dest = s "format__unsafe_hash" then some { o with format := { o.format with unsafeHash := x } }
-    else if dest = s "format__frozen" then some { o with format := { o.format with frozen := x } }
-    else if dest = s "format__slots" then some { o with format := { o.format with slots := x } }
-    else if dest = s "relative_imports" then some { o with relativeImports := x }
-    else if dest = s "compound_fields__enabled" then some { o with compoundFields := x }
-    else if dest = s "wrapper_fields" then some { o with wrapperFields := x }
-    else if dest = s "generic_collections" then some { o with genericCollections := x }
-    else if dest = s "unnest_classes" then some { o with unnestClasses := x }
-    else if dest = s "ignore_patterns" then some { o with ignorePatterns := x }
-    else if dest = s "include_header" then some { o with includeHeader := x }
-    else none
+def Dest.all : List Dest :=
+  [.package, .fmtValue, .fmtRepr, .fmtEq, .fmtOrder, .fmtUnsafeHash, .fmtFrozen, .fmtSlots, .structureStyle, .docstringStyle, .relativeImports, .compoundFields, .wrapperFields, .maxLineLength, .genericCollections, .unnestClasses, .ignorePatterns, .includeHeader]
+
+/-- the keyword click passes to `generate` (`"__".join(qname.split("."))`) -/
+def Dest.name : Dest → Str
+  | .package => ['p', 'a', 'c', 'k', 'a', 'g', 'e']
+  | .fmtValue => ['f', 'o', 'r', 'm', 'a', 't', '_', '_', 'v', 'a', 'l', 'u', 'e']
+  | .fmtRepr => ['f', 'o', 'r', 'm', 'a', 't', '_', '_', 'r', 'e', 'p', 'r']
+  | .fmtEq => ['f', 'o', 'r', 'm', 'a', 't', '_', '_', 'e', 'q']
+  | .fmtOrder => ['f', 'o', 'r', 'm', 'a', 't', '_', '_', 'o', 'r', 'd', 'e', 'r']
+  | .fmtUnsafeHash => ['f', 'o', 'r', 'm', 'a', 't', '_', '_', 'u', 'n', 's', 'a', 'f', 'e', '_', 'h', 'a', 's', 'h']
+  | .fmtFrozen => ['f', 'o', 'r', 'm', 'a', 't', '_', '_', 'f', 'r', 'o', 'z', 'e', 'n']
+  | .fmtSlots => ['f', 'o', 'r', 'm', 'a', 't', '_', '_', 's', 'l', 'o', 't', 's']
+  | .structureStyle => ['s', 't', 'r', 'u', 'c', 't', 'u', 'r', 'e', '_', 's', 't', 'y', 'l', 'e']
+  | .docstringStyle => ['d', 'o', 'c', 's', 't', 'r', 'i', 'n', 'g', '_', 's', 't', 'y', 'l', 'e']
+  | .relativeImports => ['r', 'e', 'l', 'a', 't', 'i', 'v', 'e', '_', 'i', 'm', 'p', 'o', 'r', 't', 's']
+  | .compoundFields => ['c', 'o', 'm', 'p', 'o', 'u', 'n', 'd', '_', 'f', 'i', 'e', 'l', 'd', 's', '_', '_', 'e', 'n', 'a', 'b', 'l', 'e', 'd']
+  | .wrapperFields => ['w', 'r', 'a', 'p', 'p', 'e', 'r', '_', 'f', 'i', 'e', 'l', 'd', 's']
+  | .maxLineLength => ['m', 'a', 'x', '_', 'l', 'i', 'n', 'e', '_', 'l', 'e', 'n', 'g', 't', 'h']
+  | .genericCollections => ['g', 'e', 'n', 'e', 'r', 'i', 'c', '_', 'c', 'o', 'l', 'l', 'e', 'c', 't', 'i', 'o', 'n', 's']
+  | .unnestClasses => ['u', 'n', 'n', 'e', 's', 't', '_', 'c', 'l', 'a', 's', 's', 'e', 's']
+  | .ignorePatterns => ['i', 'g', 'n', 'o', 'r', 'e', '_', 'p', 'a', 't', 't', 'e', 'r', 'n', 's']
+  | .includeHeader => ['i', 'n', 'c', 'l', 'u', 'd', 'e', '_', 'h', 'e', 'a', 'd', 'e', 'r']
+
+/-- kind of value the option takes -/
+def Dest.kind : Dest → Str
+  | .package => ['s', 't', 'r']
+  | .fmtValue => ['s', 't', 'r']
+  | .fmtRepr => ['b', 'o', 'o', 'l']
+  | .fmtEq => ['b', 'o', 'o', 'l']
+  | .fmtOrder => ['b', 'o', 'o', 'l']
+  | .fmtUnsafeHash => ['b', 'o', 'o', 'l']
+  | .fmtFrozen => ['b', 'o', 'o', 'l']
+  | .fmtSlots => ['b', 'o', 'o', 'l']
+  | .structureStyle => ['s', 't', 'r']
+  | .docstringStyle => ['s', 't', 'r']
+  | .relativeImports => ['b', 'o', 'o', 'l']
+  | .compoundFields => ['b', 'o', 'o', 'l']
+  | .wrapperFields => ['b', 'o', 'o', 'l']
+  | .maxLineLength => ['i', 'n', 't']
+  | .genericCollections => ['b', 'o', 'o', 'l']
+  | .unnestClasses => ['b', 'o', 'o', 'l']
+  | .ignorePatterns => ['b', 'o', 'o', 'l']
+  | .includeHeader => ['b', 'o', 'o', 'l']
+
+def Dest.parse (n : Str) : Option Dest := Dest.all.find? (fun d => d.name == n)
+
+/-- `objects.update`'s `attrsetter(obj, key, value)` for the dotted key that
+`cli.generate` makes of the destination; `none` = a value of the wrong kind
+(click's type conversion excludes it). -/
+def setField (o : GenOutput) (d : Dest) (v : OptVal) : Option GenOutput :=
+  match d, v with
+  | .package, OptVal.str x => some { o with package := x }
+  | .fmtValue, OptVal.str x => some { o with format := { o.format with value := x } }
+  | .fmtRepr, OptVal.bool x => some { o with format := { o.format with repr := x } }
+  | .fmtEq, OptVal.bool x => some { o with format := { o.format with eq := x } }
+  | .fmtOrder, OptVal.bool x => some { o with format := { o.format with order := x } }
+  | .fmtUnsafeHash, OptVal.bool x => some { o with format := { o.format with unsafeHash := x } }
+  | .fmtFrozen, OptVal.bool x => some { o with format := { o.format with frozen := x } }
+  | .fmtSlots, OptVal.bool x => some { o with format := { o.format with slots := x } }
+  | .structureStyle, OptVal.str x => some { o with structureStyle := x }
+  | .docstringStyle, OptVal.str x => some { o with docstringStyle := x }
+  | .relativeImports, OptVal.bool x => some { o with relativeImports := x }
+  | .compoundFields, OptVal.bool x => some { o with compoundFields := x }
+  | .wrapperFields, OptVal.bool x => some { o with wrapperFields := x }
+  | .maxLineLength, OptVal.int x => some { o with maxLineLength := x }
+  | .genericCollections, OptVal.bool x => some { o with genericCollections := x }
+  | .unnestClasses, OptVal.bool x => some { o with unnestClasses := x }
+  | .ignorePatterns, OptVal.bool x => some { o with ignorePatterns := x }
+  | .includeHeader, OptVal.bool x => some { o with includeHeader := x }
+  | _, _ => none
 
 /-- `GeneratorOutput.update(**kwargs)`: set every key, then `self.format.validate()` only -/
-def update (o : GenOutput) (params : List (Str × OptVal)) : Option GenOutput :=
+def update (o : GenOutput) (params : List (Dest × OptVal)) : Option GenOutput :=
   (params.foldlM (fun o kv => setField o kv.1 kv.2) o).map
     (fun o => { o with format := formatValidate o.format })
 
 /-- `cli.generate`: `params = {k: v for k, v in kwargs.items() if v is not None}`;
 `config = GeneratorConfig.read(config_file)`; `config.output.update(**params)` -/
-def cliGenerate (fileConfig : GenOutput) (kwargs : List (Str × Option OptVal)) : Option GenOutput :=
+def cliGenerate (fileConfig : GenOutput) (kwargs : List (Dest × Option OptVal)) : Option GenOutput :=
   update fileConfig (kwargs.filterMap (fun kv => kv.2.map (fun v => (kv.1, v))))
 
-/-- the option destinations in declaration order with the kind of value they take -/
-def optionDests : List (Str × Str) :=
-  [ (s "package", s "str"), (s "format__value", s "str"), (s "format__repr", s "bool"),
-    (s "format__eq", s "bool"), (s "format__order", s "bool"), (s "format__unsafe_hash", s "bool"),
-    (s "format__frozen", s "bool"), (s "format__slots", s "bool"), (s "structure_style", s "str"),
-    (s "docstring_style", s "str"), (s "relative_imports", s "bool"),
-    (s "compound_fields__enabled", s "bool"), (s "wrapper_fields", s "bool"),
-    (s "max_line_length", s "int"), (s "generic_collections", s "bool"),
-    (s "unnest_classes", s "bool"), (s "ignore_patterns", s "bool"), (s "include_header", s "bool") ]
+/-- the value of the field a destination points to -/
+def getField (o : GenOutput) : Dest → OptVal
+  | .package => OptVal.str o.package
+  | .fmtValue => OptVal.str o.format.value
+  | .fmtRepr => OptVal.bool o.format.repr
+  | .fmtEq => OptVal.bool o.format.eq
+  | .fmtOrder => OptVal.bool o.format.order
+  | .fmtUnsafeHash => OptVal.bool o.format.unsafeHash
+  | .fmtFrozen => OptVal.bool o.format.frozen
+  | .fmtSlots => OptVal.bool o.format.slots
+  | .structureStyle => OptVal.str o.structureStyle
+  | .docstringStyle => OptVal.str o.docstringStyle
+  | .relativeImports => OptVal.bool o.relativeImports
+  | .compoundFields => OptVal.bool o.compoundFields
+  | .wrapperFields => OptVal.bool o.wrapperFields
+  | .maxLineLength => OptVal.int o.maxLineLength
+  | .genericCollections => OptVal.bool o.genericCollections
+  | .unnestClasses => OptVal.bool o.unnestClasses
+  | .ignorePatterns => OptVal.bool o.ignorePatterns
+  | .includeHeader => OptVal.bool o.includeHeader
 
 /-- the kwargs click hands to `generate` when every option is given explicitly for `o` -/
-def flagsOf (o : GenOutput) : List (Str × Option OptVal) :=
-  [ (s "package", some (.str o.package)), (s "format__value", some (.str o.format.value)),
-    (s "format__repr", some (.bool o.format.repr)), (s "format__eq", some (.bool o.format.eq)),
-    (s "format__order", some (.bool o.format.order)),
-    (s "format__unsafe_hash", some (.bool o.format.unsafeHash)),
-    (s "format__frozen", some (.bool o.format.frozen)), (s "format__slots", some (.bool o.format.slots)),
-    (s "structure_style", some (.str o.structureStyle)),
-    (s "docstring_style", some (.str o.docstringStyle)),
-    (s "relative_imports", some (.bool o.relativeImports)),
-    (s "compound_fields__enabled", some (.bool o.compoundFields)),
-    (s "wrapper_fields", some (.bool o.wrapperFields)),
-    (s "max_line_length", some (.int o.maxLineLength)),
-    (s "generic_collections", some (.bool o.genericCollections)),
-    (s "unnest_classes", some (.bool o.unnestClasses)),
-    (s "ignore_patterns", some (.bool o.ignorePatterns)),
-    (s "include_header", some (.bool o.includeHeader)) ]
+def flagsOf (o : GenOutput) : List (Dest × Option OptVal) :=
+  Dest.all.map (fun d => (d, some (getField o d)))
 
 /-- `GeneratorOutput()` -/
 def defaultOutput : GenOutput :=
-  { package := s "generated"
-    format := { value := s "dataclasses", repr := true, eq := true, order := false,
+  { package := ['g', 'e', 'n', 'e', 'r', 'a', 't', 'e', 'd']
+    format := { value := ['d', 'a', 't', 'a', 'c', 'l', 'a', 's', 's', 'e', 's'], repr := true, eq := true, order := false,
                 unsafeHash := false, frozen := false, slots := false }
-    structureStyle := s "filenames", docstringStyle := s "reStructuredText"
+    structureStyle := ['f', 'i', 'l', 'e', 'n', 'a', 'm', 'e', 's'], docstringStyle := ['r', 'e', 'S', 't', 'r', 'u', 'c', 't', 'u', 'r', 'e', 'd', 'T', 'e', 'x', 't']
     relativeImports := false, compoundFields := false, wrapperFields := false
     maxLineLength := 79, genericCollections := false, unnestClasses := false
     ignorePatterns := false, includeHeader := false }
 
-/-- `str(value)` of every CLI-settable field, keyed by destination (to be compared with `Tables.cliDefaults`) -/
+/-- Python `str(value)` -/
+def OptVal.pyStr : OptVal → Str
+  | .str x => x
+  | .bool true => ['T', 'r', 'u', 'e']
+  | .bool false => ['F', 'a', 'l', 's', 'e']
+  | .int i => intStr i
+
+/-- `(dest, str(value))` of every CLI-settable field (compared with `Tables.cliDefaults`) -/
 def describe (o : GenOutput) : List (Str × Str) :=
-  let b (x : Bool) : Str := if x then s "True" else s "False"
-  [ (s "package", o.package), (s "format__value", o.format.value), (s "format__repr", b o.format.repr),
-    (s "format__eq", b o.format.eq), (s "format__order", b o.format.order),
-    (s "format__unsafe_hash", b o.format.unsafeHash), (s "format__frozen", b o.format.frozen),
-    (s "format__slots", b o.format.slots), (s "structure_style", o.structureStyle),
-    (s "docstring_style", o.docstringStyle), (s "relative_imports", b o.relativeImports),
-    (s "compound_fields__enabled", b o.compoundFields), (s "wrapper_fields", b o.wrapperFields),
-    (s "max_line_length", intStr o.maxLineLength), (s "generic_collections", b o.genericCollections),
-    (s "unnest_classes", b o.unnestClasses), (s "ignore_patterns", b o.ignorePatterns),
-    (s "include_header", b o.includeHeader) ]
+  Dest.all.map (fun d => (d.name, (getField o d).pyStr))
+
+/-- `(dest, kind)` of every option (compared with `Tables.cliOptions`) -/
+def optionDests : List (Str × Str) := Dest.all.map (fun d => (d.name, d.kind))
 
 end Xs.Codegen
